@@ -160,7 +160,7 @@ def run(ctx):
             return True
         return all(acyclic(p, d, path + (m,)) for fs in modes for d in fs)
 
-    for doc in decsmall.docs(3, (seed % 16, 16) if tier == "quick" else (0, 1)):
+    for doc in decsmall.docs(3, ((seed + 4) % 16, 16) if tier == "quick" else (0, 1)):
         text = render_doc(doc)
         try:
             p = DecFileParser.from_string(text)
